@@ -52,6 +52,8 @@ def run(ctx):
         ctx.guard(name_search, ctx, cfg, fs)
         ctx.guard(lossless, ctx, cfg, fs)
         ctx.guard(conversion_arms, ctx, cfg, fs)
+        import c05
+        ctx.guard(c05.tokenizer_context_free, ctx, cfg, fs, 'D.cluster-table')
         ctx.guard(cluster_table, ctx, cfg, fs)
         ctx.guard(boundaries, ctx, cfg, fs)
         import wiring
